@@ -13,8 +13,9 @@ sys.path.insert(0, HERE)
 def load_checks():
     """each harness/props/cXX.py carries MANIFEST = dict(text=, note=, technique=, design=)"""
     checks = {}
+    claimed = json.load(open(os.path.join(HERE, "claimed.json")))  # integrated verticals only
     for f in sorted(os.listdir(os.path.join(HERE, "props"))):
-        if f.startswith("c") and f.endswith(".py") and f[1:3].isdigit():
+        if f.startswith("c") and f.endswith(".py") and f[1:3].isdigit() and f[:-3].upper() in claimed:
             mod = importlib.import_module("props." + f[:-3])
             if getattr(mod, "MANIFEST", None):
                 checks[f[:-3].upper()] = mod.MANIFEST
